@@ -104,6 +104,17 @@ func checkC20(c *core.Check) {
 			}
 			a.Paths = append(a.Paths, aspec.PathItem{Template: w.tmpl, Ops: []aspec.Op{w.op}})
 		}
+		// an operation that answers from one stored value (driver: operations under /shared/): a grid of rows, some nil
+		{
+			i64 := aspec.Schema{K: "int64"}
+			str := aspec.Schema{K: "string"}
+			row := aspec.Schema{K: "array", Items: &i64}
+			a.Schemas = append(a.Schemas, aspec.NamedSchema{Name: "SharedGrid", Schema: objSchema(aspec.Prop{Name: "rows", Schema: aspec.Schema{K: "array", Items: &row}, Req: true}, aspec.Prop{Name: "names", Schema: aspec.Schema{K: "array", Items: &str}}, aspec.Prop{Name: "title", Schema: str})})
+			t := []aspec.Seg{{K: "lit", S: "shared"}, {K: "lit", S: "grid"}}
+			op := simpleOp("GET", t)
+			op.Responses = []aspec.RespRef{{Status: "200", R: &aspec.Response{Desc: "ok", Body: aspec.Body{K: "json", Schema: &aspec.Schema{K: "ref", To: "SharedGrid"}}}}}
+			a.Paths = append(a.Paths, aspec.PathItem{Template: t, Ops: []aspec.Op{op}})
+		}
 		// every other package is generated with CORS on and gets four plain paths that only ever see preflights
 		cors := (start/perPkg)%2 == 0
 		var preflights []string
